@@ -282,8 +282,12 @@ func (vc *FuncVC) tr(e *env, x Expr) Term {
 		}
 		body := vc.tr(e, n.Body)
 		var pats []string
-		for _, tr := range n.Trig {
-			pats = append(pats, vc.tr(e, tr).S)
+		for _, group := range n.Trig {
+			var ts []string
+			for _, tr := range group {
+				ts = append(ts, vc.tr(e, tr).S)
+			}
+			pats = append(pats, "("+strings.Join(ts, " ")+")")
 		}
 		for k, v := range saved {
 			if v == nil {
@@ -297,7 +301,7 @@ func (vc *FuncVC) tr(e *env, x Expr) Term {
 			q = "exists"
 		}
 		if len(pats) > 0 {
-			return T("Bool", fmt.Sprintf("(%s (%s) (! %s :pattern (%s)))", q, strings.Join(binders, " "), body.S, strings.Join(pats, " ")))
+			return T("Bool", fmt.Sprintf("(%s (%s) (! %s :pattern %s))", q, strings.Join(binders, " "), body.S, strings.Join(pats, " :pattern ")))
 		}
 		return T("Bool", fmt.Sprintf("(%s (%s) %s)", q, strings.Join(binders, " "), body.S))
 	}
@@ -613,6 +617,14 @@ func (vc *FuncVC) trCall(e *env, n *ECall) Term {
 				r.GoT = t
 				return r
 			}
+		case "visited": // visited(n): the set of keys already produced by the n-th map range of this function
+			if lit, ok := n.Args[0].(*EInt); ok {
+				key := fmt.Sprintf("IT:%s%d", vc.cur.prefix, lit.V)
+				if t, ok := e.st().vars[key]; ok {
+					return t
+				}
+				return e.fail("no map range #%d in scope", lit.V)
+			}
 		case "fresh": // fresh(r): r was not allocated at function entry
 			al := vc.get(e.old, "alloc", "(Array Int Bool)")
 			return not(app("Bool", "select", al, args[0]))
@@ -659,6 +671,21 @@ func (vc *FuncVC) trCall(e *env, n *ECall) Term {
 		}
 		return e.fail("unknown function %s", f.Name)
 	case *ESel:
+		// package-qualified pure function: streams.IsOrExtendsActivityStreamsFollow(v)
+		if id, ok := f.X.(*EIdent); ok {
+			if _, isVar := e.vars[id.Name]; !isVar {
+				if _, isLazy := e.lazy[id.Name]; !isLazy {
+					if pkg := vc.eng.pkgByName(id.Name); pkg != nil {
+						if _, isLocal := e.lookupLocal(id.Name); !isLocal {
+							if r, ok := vc.pureStaticCall(e, pkg, f.Name, args); ok {
+								return r
+							}
+							return e.fail("%s.%s is not a pure function with a contract", id.Name, f.Name)
+						}
+					}
+				}
+			}
+		}
 		// pure method application on an interface value: x.M(args)
 		recv := vc.tr(e, f.X)
 		var rsort string
@@ -855,4 +882,43 @@ func (vc *FuncVC) pureFacts(e *env, c *Contract, recv Term, args []Term, result 
 		}
 		vc.emit("(assert %s)", f.S)
 	}
+}
+
+// pureStaticCall applies a pure (contracted or schema) package-level function in a specification.
+func (vc *FuncVC) pureStaticCall(e *env, pkg *ssa.Package, name string, args []Term) (Term, bool) {
+	key := strings.ReplaceAll(pkg.Pkg.Path(), modPrefix, "") + "." + name
+	fn := vc.eng.fnByKey[key]
+	if fn == nil {
+		return Term{}, false
+	}
+	c := vc.eng.specs.Contracts[key]
+	if c == nil {
+		c = vc.eng.specs.schemaFor(key)
+	}
+	if c == nil || !c.Pure || fn.Signature.Results().Len() != 1 {
+		return Term{}, false
+	}
+	var as []Term
+	var sorts []string
+	for _, dep := range pureDeps(c) {
+		ds := "Int"
+		if gs, ok := vc.ghostSort(dep); ok {
+			ds = gs
+		}
+		as = append(as, vc.get(e.st(), "G:"+dep, ds))
+		sorts = append(sorts, ds)
+	}
+	for i, a := range args {
+		if a.Sort == nilSort && i < fn.Signature.Params().Len() {
+			a = vc.ss.zero(vc.ss.sortOf(fn.Signature.Params().At(i).Type()))
+		}
+		as = append(as, a)
+		sorts = append(sorts, a.Sort)
+	}
+	fname := "f!" + smtIdent(key)
+	rt := fn.Signature.Results().At(0).Type()
+	vc.eng.needFun(vc, fname, sorts, vc.ss.sortOf(rt))
+	r := app(vc.ss.sortOf(rt), fname, as...)
+	r.GoT = rt
+	return r, true
 }
